@@ -100,6 +100,31 @@ def statement_products():
             yield ('triple_in_block', s1n, s2n, s3n), 'if (x) { %s %s %s }' % (s1, s2, s3)
 
 
+def closing_runs():
+    """several constructs closing at once (a long run of layout without a token: closing braces, semicolons, line
+    breaks, dedents), then something that is layout only as well, at the end of the output or not"""
+    openers = [('block', '{', '}'), ('if', 'if (a) {', '}'), ('funcexpr', 'f = function () { return', ';}'),
+               ('funcexpr_stmt', 'f = function () {', '};'), ('object', 'o = {k:', '}'), ('call', 'g(function () {', '})')]
+    tails = [('empty_block', '{}'), ('semi', ';'), ('semi_block', '; {}'), ('block_semi', '{} ;'), ('none', ''),
+             ('two_blocks', '{}{}'), ('block_in_block', '{{}}')]
+    for (on, op, cl) in openers:
+        for depth in (2, 3, 4, 5, 6, 8, 12):
+            inner = 'x' if on == 'object' else 'x;'
+            if on == 'funcexpr':
+                body = op * depth + ' 1' + cl * depth
+                body = ' '.join(['f = function () { return'] * depth) + ' 1' + ';}' * depth + ';'
+            elif on == 'object':
+                body = 'o = ' + '{k: ' * depth + '1' + '}' * depth + ';'
+            else:
+                body = (op + ' ') * depth + inner + (' ' + cl) * depth
+                if on == 'call':
+                    body += ';'
+            for tn, tail in tails:
+                for after in ('', ' y;'):
+                    yield ('closing_run', on, depth, tn, bool(after)), '%s %s%s' % (body, tail, after)
+                    yield ('closing_run_in_function', on, depth, tn, bool(after)), 'function w() { %s %s%s }' % (body, tail, after)
+
+
 def keyword_adjacency():
     """keyword x following token class"""
     follow = [('ident', 'a'), ('number', '1'), ('dot_frac', '.5'), ('string', '"s"'), ('regex', '/re/'),
@@ -190,7 +215,7 @@ def noin_products():
 
 
 ALL = [binary_products, binary_products_parenthesised, unary_products, member_products, statement_products,
-       keyword_adjacency, keyword_property_products, accessor_products, array_products, noin_products]
+       closing_runs, keyword_adjacency, keyword_property_products, accessor_products, array_products, noin_products]
 LEXICAL = [keyword_property_products, accessor_products, noin_products]
 
 
